@@ -219,8 +219,11 @@ Shapes == pc \in {"written", "opened", "done"} =>
             /\ TLen(KeyOf(cfg, w.iso.fk, "stream")) = (IF cfg.R >= 5 THEN 32 ELSE Min(KeyBytes(cfg.R, cfg.bits) + 5, 16))
 
 (* impl-shaped refines declarative, except exactly the confirmed deviations *)
-DevOwnerAbsentHere == Dev_ownerAbsent /\ cfg.R <= 4 /\ pws.owner = PwE /\ Canon(cfg.R, pws.user) # Canon(cfg.R, PwE)
-DevH12Here         == Dev_h12 /\ cfg.R <= 4 /\ res.iso.isOwner /\ ~res.iso.isUser
+\* the input classes of the two deviations (whatever the switches say): used for anti-vacuity of the emitted cases
+ClsOwnerAbsentHere == cfg.R <= 4 /\ pws.owner = PwE /\ Canon(cfg.R, pws.user) # Canon(cfg.R, PwE)
+ClsH12Here         == cfg.R <= 4 /\ res.iso.isOwner /\ ~res.iso.isUser
+DevOwnerAbsentHere == Dev_ownerAbsent /\ ClsOwnerAbsentHere
+DevH12Here         == Dev_h12 /\ ClsH12Here
 DevH13Here(k)      == Dev_h13 /\ k = "str.streamdict"
 
 ImplDictRefines == pc \in {"written", "opened", "done"} =>
@@ -298,5 +301,6 @@ EmitInv ==
                                    user |-> SegsJson(pws.user), owner |-> SegsJson(pws.owner), try |-> SegsJson(try),
                                    expUser |-> ShouldUser, expOwner |-> ShouldOwner,
                                    items |-> Len(ItemSeq) - Len(todo),      \* DecryptItem steps of this behaviour
-                                   model |-> [h12 |-> DevH12Here, ownerAbsent |-> DevOwnerAbsentHere]])>>)
+                                   model |-> [h12 |-> DevH12Here, ownerAbsent |-> DevOwnerAbsentHere],
+                                   cls   |-> [h12 |-> ClsH12Here, ownerAbsent |-> ClsOwnerAbsentHere]])>>)
 =============================================================================
